@@ -4,6 +4,7 @@ verification; output file exists only if some constraint failed.
 """
 
 import copy
+import json
 import os
 
 from hypothesis import strategies as st
@@ -44,7 +45,8 @@ SUFFIX = {'type': 'type', 'min': 'min', 'min_length': 'min_length',
 C06_KINDS = [k for k in F.ALL_KINDS if k not in F.TZ_KINDS]
 
 # the input frame's index: records are identified by their index label
-INDEX_KINDS = ['default', 'stepped', 'offset', 'descending', 'int-labels']
+INDEX_KINDS = ['default', 'stepped', 'offset', 'descending', 'int-labels',
+               'dup-labels']
 
 
 def index_labels(kind, n):
@@ -56,6 +58,8 @@ def index_labels(kind, n):
         return [n - 1 - i for i in range(n)]
     if kind == 'int-labels':
         return [100 - 3 * i if i % 2 else 7 * i for i in range(n)]
+    if kind == 'dup-labels':
+        return [i // 2 for i in range(n)]     # as after an un-reset concat
     return list(range(n))
 
 
@@ -68,7 +72,7 @@ def set_index(df, kind):
         df.index = pd.RangeIndex(5, 5 + n)
     elif kind == 'descending':
         df.index = pd.RangeIndex(n - 1, -1, -1)
-    elif kind == 'int-labels':
+    elif kind in ('int-labels', 'dup-labels'):
         df.index = pd.Index(index_labels(kind, n), dtype='int64')
     return df
 
@@ -336,11 +340,27 @@ def run_inner(case, ctx):
         before_index_name = df.index.name
         kw = dict(epsilon=case['epsilon'],
                   type_checking=case['type_checking'], repair=False)
-        ok, vv = quiet(verify_df, df.copy(), copy.deepcopy(cons), **kw)
+        cons_arg = copy.deepcopy(cons)
+        if len(json.dumps(case['constraints'], sort_keys=True)) % 3 == 0:
+            # the constraints come from a file that held another set of the
+            # same size a moment ago and was used for detection then
+            out.label('history:constraints-file-rewritten-in-place')
+            shared = os.path.join(ctx.scratch, 'shared.tdda')
+            text = json.dumps(cons, ensure_ascii=False)
+            decoy = '{"fields": {}}'
+            decoy += ' ' * max(0, len(text.encode('utf-8')) - len(decoy))
+            with open(shared, 'w', encoding='utf-8') as f:
+                f.write(decoy)
+            quiet(detect_df, df.copy(), shared, **kw)
+            quiet(verify_df, df.copy(), shared, **kw)
+            with open(shared, 'w', encoding='utf-8') as f:
+                f.write(text)
+            cons_arg = shared
+        ok, vv = quiet(verify_df, df.copy(), copy.deepcopy(cons_arg), **kw)
         if not ok:
             out.violate('never-raises', vv.bucket(), vv.detail())
             return out
-        ok, v = quiet(detect_df, df, copy.deepcopy(cons), outpath=outpath,
+        ok, v = quiet(detect_df, df, copy.deepcopy(cons_arg), outpath=outpath,
                       write_all=o['write_all'],
                       per_constraint=o['per_constraint'],
                       output_fields=(None if o['output_fields'] is None
